@@ -5,6 +5,12 @@ From Verif Require Import C13.Model C13.Spec.
 Import ListNotations.
 Open Scope Z_scope.
 
+(* the network an operation addresses, as the model parses the caller's
+   address and mask (ParseIPNet); an address the model rejects becomes the
+   empty network, which no real operation uses *)
+Definition pn (p : bytes) (m : option bytes) : ipnet :=
+  match parse_ipnet p m with Some n => n | None => {| ip := []; mask := [] |} end.
+
 Definition obs_eqb (a b : obs) : bool :=
   match a, b with
   | OErr, OErr => true
